@@ -408,7 +408,7 @@ impl InferShapes for Squeeze {
         // Symbolic vector to scalar
         if let Some(values) = data.as_vector()
             && values.len() == 1
-            && matches!(const_axes.as_deref(), Some([0]) | None)
+            && (axes.is_none() || matches!(const_axes.as_deref(), Some([0])))
         {
             return Ok([SymTensor::from_scalar(values[0].clone())].into());
         }
